@@ -21,10 +21,14 @@ def run(ctx):
     rwr = ctx.rule('R-WAITRETURN', 'a multi-future wait returns only with last-one evidence obtained through the '
                    'counter\'s acquiring RMW (or after the untimed wait): that RMW is the only edge that makes the Results '
                    'visible to the waiter and keeps the stack event alive for the producers', minimum=4)
+    rev = ctx.rule('R-EVENT', '(shared with C11) the event a blocked waiter owns on its stack: the setter\'s last access is '
+                   'the unlock of _m (notify under the mutex), _is_ready only under _m, Wait re-tests after a wake-up',
+                   minimum=3)
     tot = 0
     for cfg, fb in sorted(fbs.items()):
         if cfg != 'K20n':
             ctx.guard(lambda: c11.check_wait_return(ctx, fb, rwr))
+            ctx.guard(lambda: c11.check_mutex_event(ctx, fb, rev, cfg))
         ctx.guard(lambda: lib_order.check_cas_fresh(ctx, fb, rcf))
         ctx.guard(lambda: lib_core.check_undefined_inline(ctx, fb, rodr))
         words = lib_order.WORDS.keys()
